@@ -1,10 +1,12 @@
 package vc
 
 import (
+	"encoding/json"
 	"fmt"
 	"go/ast"
 	"go/token"
 	"go/types"
+	"os"
 	"sort"
 	"strings"
 )
@@ -231,6 +233,19 @@ func (p *Program) computeReadonly(fi *FuncInfo) bool {
 		}
 		var callee *types.Func
 		var recvExpr ast.Expr
+		if id, isId := ast.Unparen(call.Fun).(*ast.Ident); isId {
+			if b, isB := info.Uses[id].(*types.Builtin); isB {
+				if (b.Name() == "delete" || b.Name() == "copy") && len(call.Args) > 0 {
+					if o := rootOf(call.Args[0]); o != nil && ptrs[o] {
+						ok = false
+					}
+				}
+				return ok
+			}
+		}
+		if tv, isT := info.Types[call.Fun]; isT && tv.IsType() {
+			return true // conversion
+		}
 		switch f := ast.Unparen(call.Fun).(type) {
 		case *ast.Ident:
 			callee, _ = info.Uses[f].(*types.Func)
@@ -435,4 +450,214 @@ func (p *Program) ReadsField(fi *FuncInfo, field string, seen map[*FuncInfo]bool
 		return true
 	})
 	return found
+}
+
+// CallGraph: static call edges between module functions (direct calls, method calls resolved by name for interface
+// receivers, and references to functions as values).
+func (p *Program) CallGraph() map[string][]string {
+	if p.cg != nil {
+		return p.cg
+	}
+	byName := map[string][]string{} // method name -> keys
+	for k, fi := range p.Funcs {
+		if fi.Decl.Recv != nil {
+			byName[fi.Decl.Name.Name] = append(byName[fi.Decl.Name.Name], k)
+		}
+	}
+	cg := map[string][]string{}
+	for k, fi := range p.Funcs {
+		if fi.Decl.Body == nil || strings.HasSuffix(fi.File, "_test.go") {
+			continue
+		}
+		info := fi.Pkg.TypesInfo
+		seen := map[string]bool{}
+		add := func(t string) {
+			if !seen[t] {
+				seen[t] = true
+				cg[k] = append(cg[k], t)
+			}
+		}
+		ast.Inspect(fi.Decl.Body, func(n ast.Node) bool {
+			switch e := n.(type) {
+			case *ast.Ident:
+				if fn, ok := info.Uses[e].(*types.Func); ok {
+					if cfi := p.ByObj[fn]; cfi != nil {
+						add(cfi.Key)
+					}
+				}
+			case *ast.SelectorExpr:
+				if sel, ok := info.Selections[e]; ok && sel.Kind() == types.MethodVal {
+					if fn, ok := sel.Obj().(*types.Func); ok {
+						if cfi := p.ByObj[fn]; cfi != nil {
+							add(cfi.Key)
+						} else if _, isIface := sel.Recv().Underlying().(*types.Interface); isIface {
+							for _, t := range byName[fn.Name()] {
+								add(t)
+							}
+						}
+					}
+				}
+			}
+			return true
+		})
+	}
+	p.cg = cg
+	return cg
+}
+
+// FrameUnit builds the C03 frame obligations: no package-level variable is written on any path reachable from an
+// exported entry point, except through the configuration APIs declared with `global ... mutator ...`.
+func FrameUnit(p *Program, prop string) *Unit {
+	u := &Unit{Name: "frame:package-level-state", Kind: "frame", File: "(whole module)", Props: []string{prop}}
+	w := NewWorld()
+	u.World = w
+	cg := p.CallGraph()
+	allowed := map[string]GlobalClause{} // pkg.var|mutatorKey
+	for _, g := range p.Contracts.Globals {
+		allowed[g.Pkg+"."+g.Var+"|"+g.Pkg+"."+g.Mutator] = g
+	}
+	// effective writers: direct writes, and non-readonly pointer-receiver method calls on the variable
+	type wr struct {
+		v, f, kind, pos string
+	}
+	var writers []wr
+	for _, gw := range GlobalWrites(p) {
+		if strings.HasPrefix(gw.Kind, "method-call:") {
+			name := strings.TrimPrefix(gw.Kind, "method-call:")
+			ro := false
+			for k, fi := range p.Funcs {
+				if fi.Decl.Recv != nil && fi.Decl.Name.Name == name && strings.HasPrefix(k, strings.SplitN(gw.Var, ".", 2)[0]+".") && p.IsReadonly(fi) {
+					ro = true
+				}
+			}
+			if ro {
+				continue
+			}
+		}
+		writers = append(writers, wr{gw.Var, gw.Func, gw.Kind, gw.Pos})
+	}
+	// roots: exported functions and methods (non-test), minus init and declared mutators
+	isMutator := map[string]bool{}
+	for _, g := range p.Contracts.Globals {
+		isMutator[g.Pkg+"."+g.Mutator] = true
+	}
+	var roots []string
+	for k, fi := range p.Funcs {
+		if strings.HasSuffix(fi.File, "_test.go") || !fi.Decl.Name.IsExported() || isMutator[k] {
+			continue
+		}
+		roots = append(roots, k)
+	}
+	sort.Strings(roots)
+	reach := map[string]string{} // func -> a root that reaches it
+	var stack []string
+	for _, r := range roots {
+		if _, ok := reach[r]; !ok {
+			reach[r] = r
+			stack = append(stack, r)
+		}
+		for len(stack) > 0 {
+			f := stack[len(stack)-1]
+			stack = stack[:len(stack)-1]
+			for _, t := range cg[f] {
+				if _, ok := reach[t]; !ok {
+					reach[t] = reach[f]
+					stack = append(stack, t)
+				}
+			}
+		}
+	}
+	byVar := map[string][]wr{}
+	for _, x := range writers {
+		byVar[x.v] = append(byVar[x.v], x)
+	}
+	var vars []string
+	for v := range byVar {
+		vars = append(vars, v)
+	}
+	sort.Strings(vars)
+	for _, v := range vars {
+		o := w.Oblige(prop+"/frame/"+v, "frame", True, True)
+		o.Preset, o.Solver, o.Result = true, "frame-analysis", "unsat"
+		for _, x := range byVar[v] {
+			fname := x.f[strings.LastIndex(x.f, ".")+1:]
+			if fname == "init" {
+				continue
+			}
+			if _, ok := allowed[v+"|"+x.f]; ok {
+				if root, reached := reach[x.f]; reached {
+					o.Result = "sat"
+					o.Output += fmt.Sprintf("declared mutator %s is reachable from entry point %s; ", x.f, root)
+				}
+				continue
+			}
+			if root, reached := reach[x.f]; reached {
+				o.Result = "sat"
+				o.Output += fmt.Sprintf("%s (%s at %s), reachable from entry point %s; ", x.f, x.kind, x.pos, root)
+			} else {
+				// written by code no exported entry point reaches (dead or init-only helper)
+				callersOnlyInit := true
+				for f, ts := range cg {
+					for _, t := range ts {
+						if t == x.f && !strings.HasSuffix(f, ".init") && !isMutator[f] {
+							callersOnlyInit = false
+						}
+					}
+				}
+				if !callersOnlyInit {
+					o.Result = "sat"
+					o.Output += fmt.Sprintf("%s (%s at %s) is called from non-init code; ", x.f, x.kind, x.pos)
+				}
+			}
+		}
+	}
+	// map iteration order (rule 3): every range-over-map loop accepted by the structural rules on the reviewed tree is
+	// claimed (listed in /verif/baseline/C03.maporder.json); the others are reported as unclaimed, not as proved.
+	claimed := loadStringSet(BaselineDir + "/C03.maporder.json")
+	for _, mr := range MapRanges(p) {
+		name := fmt.Sprintf("%s/maporder/%s#%d", prop, mr.Func, mr.Ordinal)
+		if !claimed[fmt.Sprintf("%s#%d", mr.Func, mr.Ordinal)] {
+			if !mr.OK {
+				w.Note(fmt.Sprintf("unclaimed map iteration %s#%d at %s: %s", mr.Func, mr.Ordinal, mr.Pos, mr.Why))
+			}
+			continue
+		}
+		mo := w.Oblige(name, "frame", True, True)
+		mo.Preset, mo.Solver = true, "maporder-rules"
+		if mr.OK {
+			mo.Result = "unsat"
+		} else {
+			mo.Result = "sat"
+			mo.Output = mr.Why + " (" + mr.Pos + ")"
+		}
+		delete(claimed, fmt.Sprintf("%s#%d", mr.Func, mr.Ordinal))
+	}
+	for k := range claimed {
+		mo := w.Oblige(prop+"/maporder/"+k, "frame", True, True)
+		mo.Preset, mo.Solver, mo.Result = true, "maporder-rules", "sat"
+		mo.Output = "claimed map iteration no longer exists (function or loop removed/renumbered)"
+	}
+	// one summary obligation so that the unit is never empty: the set of package-level variables with any write
+	o := w.Oblige(prop+"/frame/summary:no-undeclared-mutable-state", "frame", True, True)
+	o.Preset, o.Solver, o.Result = true, "frame-analysis", "unsat"
+	o.Note = fmt.Sprintf("%d package-level variables have writes; %d exported entry points; %d functions reachable", len(vars), len(roots), len(reach))
+	return u
+}
+
+// BaselineDir is set by the driver (/verif/baseline).
+var BaselineDir = "/verif/baseline"
+
+func loadStringSet(path string) map[string]bool {
+	out := map[string]bool{}
+	data, err := os.ReadFile(path)
+	if err != nil {
+		return out
+	}
+	var xs []string
+	if json.Unmarshal(data, &xs) == nil {
+		for _, x := range xs {
+			out[x] = true
+		}
+	}
+	return out
 }
